@@ -9,6 +9,11 @@
             Spec/Routing.v  (entry of each tag, "shown exactly once under its entry or reported",
                              the classes of field known to be dropped silently)
 
+   Tie of Model/Fields.v to the source as theorems (end of this file, the C09_code_ theorems): Model/FieldsIR.v (statement language +
+   interpreter), Gen/FieldsCode.v (the CURRENT bodies of FieldHandler.handle_* / helpers / handleUnknownField /
+   resolve_types, translated on every run by harness/gen/gen_c09_code.py), Spec/CodeTie.v (how interpreter states relate
+   to model states), Proofs/FieldsIRProofs.v + Proofs/ResolveIRProofs.v (symbolic execution).
+
    NOT proved here (sampled by the correspondence check and the document oracle only): the block structurers
    (epytext _tokenize/parse, docutils' reST parser, napoleon), epytext's inline coloriser _colorize
    is proved for all well-formed markup, links included, under a contract on its two link regexes
